@@ -1378,6 +1378,9 @@ int scpiParser_parseProgramData(lex_state_t * state, scpi_token_t * token) {
                 token->len += wsLen + suffixLen;
                 token->type = SCPI_TOKEN_DECIMAL_NUMERIC_PROGRAM_DATA_WITH_SUFFIX;
                 result = token->len;
+            } else {
+                /* white space was consumed but no suffix follows, count it as trailing white space */
+                realLen += wsLen;
             }
         }
     }
